@@ -386,16 +386,11 @@ class _Generator(Generator):
                         default_variable = canonical(member.name) + '_default'
 
                         encode_lines += [
-                            'if ((memcmp(src_p->{}{}.buf, {}, sizeof({})) != 0) ||'.format(
-                                self.location_inner('', '.'),
-                                canonical(member.name),
-                                default_variable,
-                                default_variable,
-                                self.format_default(member)),
-                            '    (src_p->{}{}.length != sizeof({}))) {{'.format(
-                                self.location_inner('', '.'),
-                                canonical(member.name),
-                                default_variable),
+                            'if ({}) {{'.format(
+                                self.format_buffer_not_default_condition(
+                                    self.location_inner('', '.') + canonical(member.name),
+                                    default_variable,
+                                    self.get_member_checker(checker, member.name))),
                             inner,
                             '}',
                             ''
